@@ -10,6 +10,7 @@ query and generate the body of the `FETCH` response IMAP message.
 #
 import email.utils
 import logging
+import re
 from email.header import Header
 from email.message import EmailMessage, Message
 from enum import StrEnum
@@ -20,6 +21,11 @@ from typing import TYPE_CHECKING
 from .constants import seq_to_flag
 from .exceptions import Bad
 from .utils import quoted
+
+# What may go in to a response as an atom (everything else has to be a
+# quoted string.)
+#
+_ATOM_RE = re.compile(r"[^\x00-\x20\x7f-\xff(){%*\"\\\]]+")
 
 if TYPE_CHECKING:
     from .search import SearchContext
@@ -238,7 +244,15 @@ class FetchAtt:
                     #
                     if isinstance(s, (list, tuple)):
                         sect = str(s[0]).upper()
-                        paren = " ".join(x for x in s[1])
+                        # NOTE: A header field name the client sent as a
+                        #       quoted string or literal may not be an atom
+                        #       (a space, a paren, a quote, a CRLF..). It
+                        #       goes back as a quoted string then.
+                        #
+                        paren = " ".join(
+                            x if _ATOM_RE.fullmatch(x) else quoted(x)
+                            for x in s[1]
+                        )
                         sects.append(f"{sect} ({paren})")
                     else:
                         sects.append(str(s).upper())
@@ -752,9 +766,11 @@ class FetchAtt:
             # doing a 'body' not a 'bodystructure' then we have
             # everything we need to return a result.
             #
-            subtype = (msg.get_content_subtype().upper()).encode("latin-1")
+            subtype = quoted(msg.get_content_subtype().upper()).encode(
+                "latin-1", "replace"
+            )
             if not self.ext_data:
-                res = b"(" + b"".join(sub_parts) + b'"' + subtype + b'")'
+                res = b"(" + b"".join(sub_parts) + subtype + b")"
                 return res
 
             # Get the extension data and add it to our response.
@@ -766,9 +782,9 @@ class FetchAtt:
             res = (
                 b"("
                 + b"".join(sub_parts)
-                + b' "'
+                + b" "
                 + subtype
-                + b'" '
+                + b" "
                 + b" ".join(ext_data)
                 + b")"
             )
@@ -812,8 +828,8 @@ class FetchAtt:
         #
         maintype = msg.get_content_maintype()
         msg_subtype = msg.get_content_subtype()
-        result.append((f'"{maintype.upper()}"').encode("latin-1"))
-        result.append((f'"{msg_subtype.upper()}"').encode("latin-1"))
+        result.append(quoted(maintype.upper()).encode("latin-1", "replace"))
+        result.append(quoted(msg_subtype.upper()).encode("latin-1", "replace"))
 
         result.append(self.body_parameters(msg))  # type: ignore[arg-type]
 
